@@ -22,6 +22,7 @@ type Opts struct {
 	Anon        bool // anonymous classes as arguments (new Runnable() { public void run() { ... } })
 	DupNames    bool // some classes share their simple name with a class of another package and are referenced through a wildcard import (metamorphic checks only)
 	Wide        bool // further statement and expression forms: do-while, try-with-resources, synchronized, throw, ternary, casts, super calls, block lambdas, several declarators
+	RichDecl    bool // annotated methods, parameters and fields, comments inside declarations, interface constants, several thrown types, nested generic types
 	MaxMethods  int  // default 5
 	NoCtors     bool
 }
@@ -669,6 +670,9 @@ func (g *gen) unit(i int) (string, UnitTruth) {
 			}
 			u.fields = append(u.fields, vi)
 			mod := rapid.SampledFrom([]string{"private ", "public static final ", "", "private volatile "}).Draw(t, "fieldMod")
+			if g.o.RichDecl && rapid.IntRange(0, 4).Draw(t, "fieldAnn") == 0 {
+				w.S(u.indent + rapid.SampledFrom([]string{"@Deprecated", "@SuppressWarnings(\"unused\")", "@Column(name = \"c\", length = 10)"}).Draw(t, "fieldAnnText") + "\n")
+			}
 			init := ""
 			if strings.Contains(mod, "final") {
 				init = " = " + defaultValue(typ)
@@ -678,6 +682,13 @@ func (g *gen) unit(i int) (string, UnitTruth) {
 		}
 		if len(u.fields) > 0 {
 			w.S("\n")
+		}
+	}
+	if s.kind == "Interface" && g.o.RichDecl && rapid.IntRange(0, 2).Draw(t, "ifaceConst") == 0 {
+		name := u.fieldName()
+		w.S(u.indent + "int " + strings.ToUpper(name) + " = 3;\n")
+		if rapid.Bool().Draw(t, "ifaceConst2") {
+			w.S(u.indent + "public static final String " + strings.ToUpper(u.fieldName()) + " = \"" + g.comment("const") + "\";\n")
 		}
 	}
 	// members
@@ -845,6 +856,22 @@ func (g *gen) varName(kind string) string {
 // names of imported types it mentions.
 func (g *gen) plainType(exts []int, typeParam string) (string, []string) {
 	t := g.t
+	if g.o.RichDecl && rapid.IntRange(0, 7).Draw(t, "richType") == 0 {
+		switch rapid.IntRange(0, 3).Draw(t, "richTypeKind") {
+		case 0:
+			if contains(exts, 0) && contains(exts, 1) {
+				return "Map<String, List<Integer>>", []string{"Map", "List"}
+			}
+		case 1:
+			return "int[][]", nil
+		case 2:
+			if contains(exts, 0) {
+				return "List<String>[]", []string{"List"}
+			}
+		default:
+			return "java.util.Set<String>", nil
+		}
+	}
 	k := rapid.IntRange(0, 12).Draw(t, "plainType")
 	switch {
 	case k <= 1:
